@@ -348,6 +348,113 @@ def _wire_async():
     return n, {k: [min(v), max(v), len(v)] for k, v in seen.items()}, viol
 
 
+def _chain_violations(sent, client_filter, who, mode):
+    """Successor chain per kind and per connection (= source address) over a list of (t, src, data)."""
+    viol = []
+    last = {}
+    n = 0
+    for (tm, src, data) in sent:
+        if not client_filter(src):
+            continue
+        parts = unframe(data)
+        if parts is None:
+            continue
+        cl = classify(parts[2])
+        if cl is None:
+            continue
+        verb, seq, (lo, hi) = cl
+        n += 1
+        if not (lo <= seq <= hi):
+            viol.append((f"C16|wire|{who}|{verb.decode()}", f"{who} client sent {verb.decode()} with sequence {seq}, outside {lo}..{hi}",
+                         {"mode": mode}))
+        elif src in last.get(lo, {}):
+            prev = last[lo][src]
+            if seq != (prev + 1 if prev < hi else lo):
+                viol.append((f"C16|wire|{who}|successor|{'command' if lo == 192 else 'protocol'}",
+                             f"{who} client sent {verb.decode()} with sequence {seq} after {prev} in the {lo}..{hi} cycle of that "
+                             f"connection (t={tm:.2f})", {"mode": mode}))
+        elif seq != lo:
+            viol.append((f"C16|wire|{who}|first|{'command' if lo == 192 else 'protocol'}",
+                         f"{who} client: the first {lo}..{hi} number of a connection is {seq} ({verb.decode()}), a new connection "
+                         f"counts from {lo}", {"mode": mode}))
+        last.setdefault(lo, {})[src] = seq
+    return n, viol
+
+
+def _wire_reconnect():
+    """The SAME GeckoAsyncSpa object connected, used, disconnected and connected again: each connection numbers from
+    the start of both cycles and every number is the successor of the previous one of its kind on that connection."""
+    from .c01 import ARig
+    from ..peers import frame
+    import asyncio
+
+    lib.reset_library()
+    rig = ARig()
+    spa = rig.spa
+
+    async def use():
+        await spa.async_press(1)
+        await spa.async_set_watercare(2)
+        await spa.async_get_watercare()
+        await spa._on_async_set_value(300, 1, 1)
+        await spa.async_get_reminders()
+
+    def statp():
+        rig.net.inject(spa._transport, frame(SPA_ID, b"IOSgeckomc-0001", b"STATP\x01\x01\x2c\x00\x07"), SPA_ADDR)
+
+    for rnd in range(2):
+        with rig.loop.running():
+            t = rig.loop.create_task(use(), name="HARNESS:use")
+        statp()
+        rig.loop.run_for(120.0, t.done)
+        statp()
+        rig.loop.run_for(1.0)
+        if not t.done() or t.exception():
+            raise core.HarnessError(f"C16 reconnect: command script failed {t}")
+        if rnd == 0:
+            with rig.loop.running():
+                t = rig.loop.create_task(spa.disconnect(), name="HARNESS:disconnect")
+            rig.loop.run_for(10.0, t.done)
+            with rig.loop.running():
+                t = rig.loop.create_task(spa.connect(), name="HARNESS:connect")
+            rig.loop.run_for(90.0, t.done)
+            if not t.done() or t.exception() or not spa.is_connected:
+                rig.close()
+                return 0, [("C16|wire|async|reconnect", f"the same spa object cannot be connected a second time: {t!r}", {"mode": "wire-reconnect"})]
+            for task in rig.tasks._tasks:
+                if task.get_name() in ("SPA:Ping loop", "SPA:Refresh loop") and not task.done():
+                    task.cancel()
+            rig.loop.run_for(0.5)
+    n, viol = _chain_violations([(tm, src, data) for (tm, src, dst, data) in rig.net.sent], lambda src: src != SPA_ADDR, "async", "wire-reconnect")
+    rig.close()
+    return n, viol
+
+
+def _wire_threaded_run():
+    """The blocking client really connected (stepped engine): handshake, refreshes, key presses and acknowledgements of
+    unsolicited partial updates in between - one successor chain per kind."""
+    from .. import stepped
+    from ..peers import frame
+
+    rig = stepped.TRig()
+    if not rig.connect():
+        raise core.HarnessError("C16: threaded client did not connect")
+    rig.run_for(0.5)
+    for i in range(6):
+        rig.inject(frame(SPA_ID, b"IOSgeckomc-0001", b"STATP\x01\x01\x2c\x00" + bytes([i + 1])))
+        rig.run_for(0.4)
+        with stepped.patched_clock(rig.world.clock):
+            rig.spa.refresh()
+        rig.run_for(3.0)
+        with stepped.patched_clock(rig.world.clock):
+            rig.spa.press(1 + i % 2)
+        rig.run_for(1.0)
+        rig.inject(frame(SPA_ID, b"IOSgeckomc-0001", b"STATP\x01\x01\x2c\x00" + bytes([i + 100])))
+        rig.run_for(0.4)
+    n, viol = _chain_violations([(t, "client", d) for (t, d, dest) in rig.client_sent], lambda src: True, "threaded", "wire-threaded-run")
+    return n, viol
+
+
 class _Desc:
     identifier = SPA_ID
     client_identifier = b"IOSgeckomc"
@@ -493,6 +600,12 @@ def run(ctx):
     # wire
     n1, seen1, v1 = _wire_async()
     n2, seen2, v2 = _wire_threaded()
+    n3, v3 = _wire_reconnect()
+    n4, v4 = _wire_threaded_run()
+    n1 += n3 + n4
+    v1 = list(v1) + list(v3) + list(v4)
+    ctx.set("wire_reconnect_datagrams", n3)
+    ctx.set("wire_threaded_run_datagrams", n4)
     ctx.merge_violations(v1)
     ctx.merge_violations(v2)
     ctx.set("wire_datagrams_classified", n1 + n2)
@@ -513,6 +626,10 @@ def replay(ctx, data):
         cfg = (data["nthreads"], data["ncalls"], tuple(data["kinds"]), tuple(data["start"]), data["opcodes"])
         res = _thread_job((cfg, [tuple(p) for p in data["prefix"]]))
         ctx.merge_violations(res["violations"])
+    elif mode == "wire-reconnect":
+        ctx.merge_violations(_wire_reconnect()[1])
+    elif mode == "wire-threaded-run":
+        ctx.merge_violations(_wire_threaded_run()[1])
     elif mode == "wire-async":
         ctx.merge_violations(_wire_async()[2])
     elif mode == "wire-threaded":
